@@ -81,3 +81,24 @@ Proof.
     + rewrite N. lia.
     + exists Ia. split; [right; exact Hin|exact Hst].
 Qed.
+
+(* sharper: every row of the joint mapping points into the variable block of ITS OWN interval (the k-th block starts after the
+   variables of the k earlier intervals) and to a step of that interval's original step list *)
+Definition part_nv (Ia : list nat * aprob) : nat := nvars (ap_lp (snd Ia)).
+Definition off_at (parts : list (list nat * aprob)) (k : nat) : nat := list_sum (map part_nv (firstn k parts)).
+
+Theorem split_map_own_block : forall parts off,
+  Forall (fun Ia => Forall (fun r => (m_step r < List.length (fst Ia))%nat /\ (m_var r < nvars (ap_lp (snd Ia)))%nat) (ap_map (snd Ia))) parts ->
+  Forall (fun r => exists k Ia, nth_error parts k = Some Ia /\
+                   (off + off_at parts k <= m_var r < off + off_at parts k + part_nv Ia)%nat /\ In (m_step r) (fst Ia))
+         (split_map parts off).
+Proof.
+  induction parts as [|[I a] rest IH]; intros off H; cbn [split_map]; [constructor|].
+  inversion H as [|? ? Ha Hr]; subst. cbn [fst snd] in Ha.
+  apply Forall_app. split.
+  - unfold rebase. rewrite Forall_map. eapply Forall_impl; [|exact Ha]. intros r [Hs Hv]. cbn [m_var m_step].
+    exists 0%nat, (I, a). split; [reflexivity|]. unfold off_at, part_nv, list_sum. cbn [firstn map fold_right fst snd]. split; [lia|apply nth_In; exact Hs].
+  - eapply Forall_impl; [|apply (IH (off + nvars (ap_lp a))%nat Hr)]. intros r (k & Ia & Hn & Hv & Hst).
+    exists (S k), Ia. split; [exact Hn|]. split; [|exact Hst].
+    unfold off_at, list_sum in *. cbn [firstn map fold_right]. change (part_nv (I, a)) with (nvars (ap_lp a)). lia.
+Qed.
